@@ -34,14 +34,18 @@ PIPELINES = [
     ("_SimplifyTopology2", "src/edge_op.cpp", r"void Manifold::Impl::SimplifyTopology2\(\)", False, []),
 ]
 
-# Generators whose freshly filled vertex array is ASSUMED to contain no unreferenced vertex and whose
-# triangle list is ASSUMED free of opposed pairs (CreateHalfedges then strands nothing).  Not proved;
-# each is covered only by the oracle on outputs.  (Revolve is deliberately absent: the oracle refuted it.)
+# Explicit, listed assumptions about generators (not proved; each is covered only by the oracle on outputs).
+#   "stranded": the freshly filled vertex array contains no unreferenced vertex and the triangle list no opposed
+#               pair (so CreateHalfedges strands nothing).  Revolve is deliberately absent: the oracle refuted it.
+#   "dup":      the generated triangles contain no directed edge twice and no pinched vertex (nothing in these
+#               pipelines would repair it: they do not call CleanupTopology).
 WAIVERS = {
-    "ShapeCtor": "fixed vertex/triangle tables of tetrahedron, cube, octahedron",
-    "Sphere": "Subdivide of the octahedron without tangents: every created vertex is used, no opposed pairs",
-    "Extrude": "every generated vertex is used by a side or cap triangle when Triangulate covers all polygon vertices",
-    "Hull": "QuickHull::buildMesh returns only hull vertices, already reindexed",
+    "ShapeCtor": ("fixed vertex/triangle tables of tetrahedron, cube, octahedron", ["stranded", "dup"]),
+    "Sphere": ("Subdivide of the octahedron without tangents: every created vertex is used, no opposed pairs", ["stranded"]),
+    "Extrude": ("every generated vertex is used by a side or cap triangle when Triangulate covers all polygon vertices; "
+                "side walls and caps of distinct contours do not share directed edges", ["stranded", "dup"]),
+    "Revolve": ("slices of distinct contour vertices do not share directed edges (axis vertices are reused per contour only)", ["dup"]),
+    "Hull": ("QuickHull::buildMesh returns only hull vertices, already reindexed, as a convex 2-manifold", ["stranded", "dup"]),
 }
 
 PASS_RE = [
@@ -130,7 +134,8 @@ def translate(repo):
         if d["waiver"]:
             # the assumption concerns the generator: it holds up to and including the first (re)build
             idx = next((i for i, x in enumerate(ps) if x in ("CreateHalfedges", "Subdivide")), -1)
-            ps.insert(idx + 1, "AssumeNoStranded")
+            for kind in d["waiver"][1][::-1]:
+                ps.insert(idx + 1, "AssumeNoStranded" if kind == "stranded" else "AssumeNoDup")
         d = dict(d)
         d["passes_abs"] = ps
         res.append(d)
